@@ -1148,10 +1148,10 @@ class Ctx:
         extra = []
         while True:
             neg = z3.And(z3.Not(t), *extra) if extra else z3.Not(t)
-            if self.query_log is not None:
-                self._log_query(neg, label)
             r, m = self._check(neg, want_model=True)
             if r == "unsat":
+                if self.query_log is not None and len(self.query_log) < 4:
+                    self._log_query(neg, label)
                 self.discharged += 1
                 return True
             if r == "unknown":
@@ -1178,7 +1178,7 @@ class Ctx:
 
     def _log_query(self, neg, label):
         s = z3.Solver()
-        s.add(*self.pc)
+        s.add(*(self._slice(neg) if (self.nl or _is_nonlinear(neg)) else self.pc))
         s.add(neg)
         self.query_log.append((label, s.to_smt2()))
 
